@@ -80,6 +80,15 @@ func (w *originWalker) anyExpr(expr hclsyntax.Expression, selfRefs bool) {
 			for i, a := range e.Args {
 				if i >= max && f.VarParam == nil {
 					w.om.DontCare = append(w.om.DontCare, regionOf(a.Range())) // surplus argument
+					continue
+				}
+				// an argument is a place that admits an expression of the parameter's type: parts
+				// of it that cannot have that type (an object item the type does not declare, ...)
+				// are as undecided as they are directly under an attribute
+				if i < max {
+					w.illTyped(a, f.Params[i].Ty.Cty())
+				} else {
+					w.illTyped(a, f.VarParam.Ty.Cty())
 				}
 			}
 			if len(f.Params) == 0 && f.VarParam == nil {
